@@ -129,7 +129,7 @@ func (fi *flowInfo) leaves(v ssa.Value) map[string]bool {
 		fi.fieldLeaves(f, out)
 	case *ssa.Extract:
 		if call, ok := x.Tuple.(*ssa.Call); ok {
-			fi.callLeaves(call, x.Index, out)
+			fi.callLeavesAt(call, x.Index, out, x)
 		} else {
 			out["ext:"+fmt.Sprintf("%T", x.Tuple)] = true
 		}
@@ -203,7 +203,46 @@ func (fi *flowInfo) fieldLeaves(f *types.Var, out map[string]bool) {
 }
 
 func (fi *flowInfo) callLeaves(call *ssa.Call, idx int, out map[string]bool) {
+	fi.callLeavesAt(call, idx, out, nil)
+}
+
+// callLeavesAt: with ex the Extract through which result idx is used: when every use of ex
+// is dominated by "the call's error result == nil", the returns that hand back a non-nil
+// error (`return 0, err`) contribute nothing — their value result is never looked at.
+func (fi *flowInfo) callLeavesAt(call *ssa.Call, idx int, out map[string]bool, ex *ssa.Extract) {
 	w := fi.w
+	errIdx := -1
+	if ex != nil {
+		if res := call.Call.Signature().Results(); res.Len() >= 2 && idx < res.Len()-1 && res.At(res.Len()-1).Type().String() == "error" {
+			errIdx = res.Len() - 1
+			var errEx ssa.Value
+			for _, r := range *call.Referrers() {
+				if e2, ok := r.(*ssa.Extract); ok && e2.Index == errIdx {
+					errEx = e2
+				}
+			}
+			usesGuarded := errEx != nil && ex.Referrers() != nil && len(*ex.Referrers()) > 0
+			if usesGuarded {
+				for _, u := range *ex.Referrers() {
+					if _, isDbg := u.(*ssa.DebugRef); isDbg {
+						continue
+					}
+					ok := false
+					for _, f := range w.factsAt(u) {
+						if v, isNil, isNF := nilFact(f); isNF && isNil && v == errEx {
+							ok = true
+						}
+					}
+					if !ok {
+						usesGuarded = false
+					}
+				}
+			}
+			if !usesGuarded {
+				errIdx = -1
+			}
+		}
+	}
 	var callees []*ssa.Function
 	if cal := call.Call.StaticCallee(); cal != nil {
 		callees = append(callees, cal)
@@ -223,6 +262,10 @@ func (fi *flowInfo) callLeaves(call *ssa.Call, idx int, out map[string]bool) {
 		}
 		for _, ret := range returnsOf(cal) {
 			if idx < len(ret.Results) {
+				if errIdx >= 0 && errIdx < len(ret.Results) && fi.nonNilAtReturn(ret, errIdx) {
+					n++
+					continue // an error return: the caller does not look at the value
+				}
 				n++
 				for k := range fi.leaves(w.resolveLoad(ret.Results[idx])) {
 					out[k] = true
@@ -543,4 +586,23 @@ func (fi *flowInfo) localPathStores(al *ssa.Alloc, path []string) ([]ssa.Value, 
 	// find (or synthesise the view of) a FieldAddr with that path: reuse the scanner through
 	// a path-carrying pseudo address
 	return fi.localFieldStoresP(al, path)
+}
+
+// nonNilAtReturn: result i of the return is certainly non-nil there (a fresh error value, or
+// a value known non-nil by the branch that leads to the return).
+func (fi *flowInfo) nonNilAtReturn(ret *ssa.Return, i int) bool {
+	w := fi.w
+	rv := stripIface(w.resolveLoad(ret.Results[i]))
+	if isNilConst(rv) {
+		return false
+	}
+	if w.absint().definitelyNonNil(rv) {
+		return true
+	}
+	for _, f := range w.factsAt(ret) {
+		if v, isNil, ok := nilFact(f); ok && !isNil && (v == rv || v == ret.Results[i] || w.sameKey(v, rv)) {
+			return true
+		}
+	}
+	return false
 }
